@@ -1023,6 +1023,8 @@ fn accessor_audit(p: &WirePdu, invalid_body: bool) -> Result<(), Violation> {
                 let valid = match p {
                     WirePdu::Ipv4 { plen, maxlen, .. } => *plen <= 32 && *plen <= *maxlen && *maxlen <= 32,
                     WirePdu::Ipv6 { plen, maxlen, .. } => *plen <= 128 && *plen <= *maxlen && *maxlen <= 128,
+                    // (an ASPA PDU with more providers than the library writes)
+                    WirePdu::Aspa { .. } => !invalid_body,
                     _ => true,
                 };
                 let res = pl.to_payload();
@@ -1518,6 +1520,21 @@ impl C07 {
             accessor_audit(&bad, true)?;
             out.evaluations += 1;
             counters.bump("invalid_origin_bodies");
+        }
+        if ctx.chance(1, 4) {
+            // An ASPA PDU with more providers than the library will write, or
+            // than fit a u16 count: it can only arrive from the wire. Reading
+            // it may succeed or fail, it must not panic, and what was read
+            // must be what was sent.
+            let big = {
+                let mut t = ctx.tape.lock().unwrap();
+                let n = *t.pick(&[pdu::ProviderAsns::MAX_COUNT + 1, 65535, 65536, 65537, 70_000]);
+                let base = gen_u32(&mut t);
+                WirePdu::Aspa { v: 2, flags: t.choose(2) as u8, customer: gen_u32(&mut t), providers: (0..n).map(|i| base.wrapping_add(i as u32 * 3)).collect() }
+            };
+            accessor_audit(&big, true)?;
+            out.evaluations += 1;
+            counters.bump("oversized_aspa_bodies");
         }
 
         // Whole-sequence truncations (sampled): PDUs before the cut decode,
